@@ -248,7 +248,7 @@ def run_labels(ck):
 
 
 # ------------------------------------------------------------------------------------------ protocols
-P_LISTS = ["M_pfp", "M_pdjb", "M_pdoc", "V_pperm", "V_pdoc", "K_unsan"]
+P_LISTS = ["M_pfp", "M_pdjb", "M_pdoc", "V_pperm", "V_pdoc", "K_unsan", "M_phdr", "K_hdr"]
 
 
 def coq_hexpairs(pairs):
@@ -278,17 +278,20 @@ def wire_to_coq(w):
         return "WElasticBulk %s %s" % (hb(f[0]), coq_hexpairs(w.get("tags")))
     if k == "otlp":
         return "WOtlpLogs (otlp_map %s %s %s %s)" % (coq_hexpairs(w.get("res")), coq_hexpairs(w.get("scope")), coq_hexpairs(w.get("rec")), hb(w.get("sev", "")))
+    if k == "loki_ttl":
+        return "WSanitized LokiJsonStream %s" % coq_hexpairs(w.get("tags"))
     if k == "influx_metric":
         return "WInfluxMetric %s %s %s" % (hb(f[0]), coq_hexpairs(w.get("tags")), hb(f[1]))
     raise ValueError("unknown wire kind %r" % k)
 
 
 def pcase_to_coq(c):
-    return ("{| pc_id := %d; pc_wire := %s; pc_ch := %s; pc_print := %s; pc_fp := %s; pc_fps := %s; pc_fp_djb := %s; pc_fps_djb := %s; pc_doc := %s |}" % (
+    return ("{| pc_id := %d; pc_wire := %s; pc_ch := %s; pc_print := %s; pc_fp := %s; pc_fps := %s; pc_fp_djb := %s; pc_fps_djb := %s; pc_doc := %s; pc_has_hdr := %s; pc_fp_hdr := %s |}" % (
         c["id"], wire_to_coq(c["wire"]),
         coq_list(["(%s, %s)" % (coq_bytes(unhex(h)), coq_u64(v)) for h, v in c.get("ch") or []]),
         coq_list(["(%d, %s)" % (r, "true" if p else "false") for r, p in (c.get("print") or [])]),
-        coq_u64(c["fp"]), coq_list([coq_u64(x) for x in c.get("fps") or []]), coq_u64(c["fp_djb"]), coq_list([coq_u64(x) for x in c.get("fps_djb") or []]), coq_bytes(unhex(c["doc"]))))
+        coq_u64(c["fp"]), coq_list([coq_u64(x) for x in c.get("fps") or []]), coq_u64(c["fp_djb"]), coq_list([coq_u64(x) for x in c.get("fps_djb") or []]), coq_bytes(unhex(c["doc"])),
+        "true" if c.get("has_hdr") else "false", coq_u64(c.get("fp_hdr") or 0)))
 
 
 def show_proto(c):
@@ -311,7 +314,7 @@ def show_proto(c):
 
 
 def run_protos(ck):
-    n = ck.n(350, 7000)
+    n = ck.n(400, 8000)
     outp = os.path.join(ck.work, "protos.jsonl")
     rc, out = ck.go_run("seriesid", ["--mode", "protos", "--seed", ck.seed, "--n", n, "--out", outp])
     if rc != 0:
@@ -362,11 +365,22 @@ def run_protos(ck):
         ck.violation({"property": "C04", "part": "protos", "kind": "stored labels text is not JSON for the label list the decoder built",
                       "case": c, "readable": show_proto(c), "explanation": "pv_doc (model/ProtoLabels.v)",
                       "replay": "seriesid --mode protos --seed %s --n %d (case id %d)" % (ck.seed, n, c["id"])})
-    mm = res["M_pfp"] + res["M_pdjb"] + res["M_pdoc"]
+    ck.obligation("correspondence: with a TTL header the control label __ttl_days__ stays in the fingerprinted list (on_entries_labels)", not res["M_phdr"],
+                  "case ids: %s" % res["M_phdr"][:10])
+    mm = res["M_pfp"] + res["M_pdjb"] + res["M_pdoc"] + res["M_phdr"]
     if mm and not ck.violations:
         c = min((byid[i] for i in mm), key=size)
         ck.violation({"property": "C04", "part": "protos", "kind": "model/implementation disagree on the label list or fingerprint of a protocol; spec oracles still accept",
-                      "case": c, "readable": show_proto(c), "broken": [k for k in ("M_pfp", "M_pdjb", "M_pdoc") if c["id"] in res[k]]}, no_input=True)
+                      "case": c, "readable": show_proto(c), "broken": [k for k in ("M_pfp", "M_pdjb", "M_pdoc", "M_phdr") if c["id"] in res[k]]}, no_input=True)
+    if res["K_hdr"]:
+        c = min((byid[i] for i in res["K_hdr"]), key=size)
+        if "ttl-label-kept-with-ttl-header" in ck.known_findings():
+            ck.report_known("ttl-label-kept-with-ttl-header", "%d of %d Loki pushes carrying a __ttl_days__ label get another fingerprint when the request has a TTL header, e.g. %s (with header: %s)" % (
+                len(res["K_hdr"]), sum(1 for x in ok if x.get("has_hdr")), json.dumps(show_proto(c))[:400], c.get("fp_hdr")))
+        else:
+            ck.violation({"property": "C04", "part": "protos", "kind": "the fingerprint of a label set depends on whether the request carried a TTL header",
+                          "case": c, "readable": show_proto(c), "fingerprint with X-Ttl-Days: 7": c.get("fp_hdr"), "explanation": "pv_hdr (model/ProtoLabels.v)",
+                          "replay": "seriesid --mode protos --seed %s --n %d (case id %d)" % (ck.seed, n, c["id"])})
     if res["K_unsan"]:
         c = min((byid[i] for i in res["K_unsan"]), key=size)
         if "labels-unsanitized-by-protocol" in ck.known_findings():
